@@ -42,7 +42,69 @@ def run(db, rep, feat, tier):
     r5(db, rep)
     r6(db, rep)
     r7(db, rep)
+    r8(db, rep)
+    r9(db, rep)
     r4(db, rep)
+
+
+def r8(db, rep):
+    from db import Cfg, mir_calls, mir_callee
+    r = rep.rule("R8", "K7", "the backing is read one byte at a time and only where no cell exists: the data accessors of "
+                 "backing::Memory are called from load_backing alone, and every call of load_backing in load() is dominated by a "
+                 "cell lookup (a wider read of the backing would ignore bytes stored in the middle of the range)")
+    DATA = ("get", "get8", "get32", "get_u8", "get_bytes")
+    bad = []
+    n = 0
+    for k in db.mir.keys():
+        if "memory::paged::" not in k:
+            continue
+        body = db.mir[k]
+        for i, t in mir_calls(body):
+            c = mir_callee(t) or ""
+            if c.startswith("memory::backing::Memory::") and last_seg(c) in DATA:
+                n += 1
+                if not k.startswith(MEM + "::load_backing"):
+                    bad.append((k, c, t.get("l"), body))
+    for k, c, l, body in bad:
+        r.bad("backing_read|%s|%s" % (last_seg(k.split("::{closure")[0]), last_seg(c)), db.where(body, l),
+              "%s reads the backing with %s outside load_backing: cells stored inside the range are bypassed" % (last_seg(k.split("::{closure")[0]), last_seg(c)))
+    r.decide(n >= 1, "backing_read|load_backing", "", "no data read of the backing found")
+    body = db.mir[MEM + "::load"]
+    cfg = Cfg(body)
+    lookups = [i for i, t in mir_calls(body) if (mir_callee(t) or "") in (MEM + "::load_cell", MEM + "::load")]
+    for n_, (i, t) in enumerate((i, t) for i, t in mir_calls(body) if (mir_callee(t) or "") == MEM + "::load_backing"):
+        r.decide(any(cfg.dominates(j, i) for j in lookups), "load|load_backing|%d" % n_, db.where(body, t.get("l")),
+                 "load_backing is called without a preceding cell lookup")
+
+
+def r9(db, rep):
+    from db import mir_calls, mir_callee
+    from mirterm import terms_of, subterms
+    r = rep.rule("R9", "K9", "store: what is re-stored of an older value that overlaps the write depends on the addresses and the older "
+                 "value only, never on the width of the value being written (the remnants are [older start, write start) and "
+                 "[write end, older end))")
+    fn = MEM + "::store"
+    body = db.mir[fn]
+    tm = terms_of(db, fn, {})
+    vl = None
+    for nm, pl in body.get("names", []):
+        if nm == "value" and len(pl) == 1 and pl[0] <= body["argc"]:
+            vl = pl[0]
+    rep.anchor(vl is not None, "parameter value of store")
+    n = 0
+    for i, t in mir_calls(body):
+        if (mir_callee(t) or "") != MEM + "::load":
+            continue
+        addr, width_ = tm.operand(t["args"][1]), tm.operand(t["args"][2])
+        n += 1
+        head = not any(x == ("param", vl) for x in subterms(addr))     # address not derived from the new value: the head remnant
+        uses_value = any(x == ("param", vl) for x in subterms(width_))
+        if head:
+            r.decide(not uses_value, "store|head_remnant_width", db.where(body, t.get("l")),
+                     "the width of the head remnant of an overwritten value is computed from the width of the value being written")
+        else:
+            r.ok("store|tail_remnant|%d" % n, db.where(body, t.get("l")))
+    r.floor(2, "remnant loads in store")
 
 
 def r1(db, rep):
